@@ -35,6 +35,18 @@ PROPS = {
         phases=[P(kind="fuzz", bin="c02_build", runs_quick=48000, runs_thorough=8000000, workers_quick=8, workers_thorough=16, max_len=4096, rss=6000, timeout=60)],
         floor_quick=4000, floor_thorough=300000,
     ),
+    "C04": P(
+        title="name ownership state machine",
+        level="exploration",
+        technique="stateful model-based testing: libFuzzer-generated operation histories on an in-process bus with raw socket clients, compared step by step with a reference model of the specification's RequestName/ReleaseName rules",
+        level_text=("Exploration: generated histories of RequestName (all 8 flag combinations, occasionally undefined bits), ReleaseName, late Hello and abrupt disconnects by 2-4 raw clients over 3 contended "
+                    "names plus invalid/unique/bus names. After every step the reply code or error, every client's NameLost/NameAcquired/NameOwnerChanged frames (addressee, arguments, requester's "
+                    "signals before its reply) and GetNameOwner/NameHasOwner/ListQueuedOwners/ListNames are compared with a model transcribed from the specification. Samples the space of histories."),
+        level_note="Trusts engine/busmodel.cc (spec transcription) and wire.cc; the daemon runs in-process under the harness' main-loop pumping (single-threaded, like the real daemon); undefined flag bits carry no verdict.",
+        rule=("case = operation history decoded from fuzzer input. Non-trivial = some name had >=2 queue entries during the history; distinct = FNV-1a of the operation log with unique names renamed by first appearance."),
+        phases=[P(kind="fuzz", bin="c04_names", runs_quick=12000, runs_thorough=2000000, workers_quick=12, workers_thorough=16, max_len=512, rss=4000, timeout=120, detect_leaks=0)],
+        floor_quick=600, floor_thorough=50000,
+    ),
     "C11": P(
         title="framing independent of chunking",
         level="exploration",
